@@ -253,16 +253,17 @@ type scope struct {
 }
 
 type gen struct {
-	r        *run.Rand
-	pConst   float64
-	pCall    float64
-	forKeys  bool // named keys allowed in the sub-expressions of @for
-	liveOK   bool
-	users    []*ufunc
-	stateful bool
-	noCLI    bool
-	names    map[string]int // helper names used
-	inReduce int
+	r         *run.Rand
+	pConst    float64
+	pCall     float64
+	forKeys   bool // named keys allowed in the sub-expressions of @for
+	liveOK    bool
+	users     []*ufunc
+	stateful  bool
+	noCLI     bool
+	noLong    bool           // no 4-30 KiB literals in generated function bodies
+	names     map[string]int // helper names used
+	inReduce  int
 	redefine  bool            // funcName may hand out the name of a built-in helper
 	redefined map[string]bool // built-in names the generated funcs file defines
 }
